@@ -1100,7 +1100,82 @@ fn run_numeric_table(c: &mut Ctx) {
     }
 }
 
+/// name items byte by byte: every weekday / month name (short and long, lower and upper case) and the
+/// am/pm markers with every single byte replaced by every ASCII byte, read by the item that takes names
+/// in any letter case; whatever trick folds the case must not let another byte through
+fn run_name_bytes(c: &mut Ctx) {
+    const WD: [&str; 7] = ["monday", "tuesday", "wednesday", "thursday", "friday", "saturday", "sunday"];
+    const MO: [&str; 12] =
+        ["january", "february", "march", "april", "may", "june", "july", "august", "september", "october", "november", "december"];
+    // `%a` / `%b` read the three-letter form only, `%A` / `%B` the long form or else the three-letter form
+    let groups: [(&str, &[&str], bool, bool); 5] =
+        [("%a", &WD, true, false), ("%A", &WD, true, true), ("%b", &MO, true, false), ("%B", &MO, true, true), ("%p", &["am", "pm"], false, true)];
+    for (fmt, names, short_too, long_too) in groups {
+        let items: Vec<Item> = StrftimeItems::new(fmt).collect();
+        let enc = encode_items(&items);
+        let mut texts: Vec<Vec<u8>> = vec![];
+        for name in names {
+            let mut bases = vec![name.as_bytes().to_vec()];
+            if short_too {
+                bases.push(name.as_bytes()[..3].to_vec());
+            }
+            for base in bases {
+                for upper in [false, true] {
+                    let b0 = if upper { base.to_ascii_uppercase() } else { base.clone() };
+                    for k in 0..b0.len() {
+                        for v in 0u8..128 {
+                            let mut b = b0.clone();
+                            b[k] = v;
+                            texts.push(b);
+                        }
+                    }
+                }
+            }
+        }
+        texts.sort();
+        texts.dedup();
+        for b in texts {
+            let text = String::from_utf8(b).unwrap();
+            let got = gs(
+                || {
+                    let mut p = Parsed::new();
+                    parse_and_remainder(&mut p, &text, items.iter()).map(|rest| (dump_parsed(&p), rest.len()))
+                },
+                |r| match r {
+                    Ok((d, rest)) => format!("ok {} rest={}", d, rest),
+                    Err(e) => format!("err {}", err_kind(&e)),
+                },
+            );
+            c.op(&format!("ps.items {} {}", enc, hex(text.as_bytes())), &got);
+            c.count("name-bytes:cases");
+            // independent reading: the longest name (long form, else three-letter form) that is a prefix of the
+            // text in any letter case; nothing else is a name
+            let low = text.to_ascii_lowercase();
+            let want_rest = names
+                .iter()
+                .filter_map(|n| {
+                    if long_too && low.starts_with(n) {
+                        Some(text.len() - n.len())
+                    } else if short_too && low.starts_with(&n[..3]) {
+                        Some(text.len() - 3)
+                    } else {
+                        None
+                    }
+                })
+                .min();
+            let ok = match want_rest {
+                Some(r) => got.starts_with("ok") && got.ends_with(&format!("rest={}", r)),
+                None => got.starts_with("err"),
+            };
+            if !ok {
+                c.fail("a name item accepts a non-name, rejects a name or takes the wrong number of bytes", &format!("fmt {} text {:?} -> {}", fmt, text, got));
+            }
+        }
+    }
+}
+
 pub fn run(c: &mut Ctx) {
+    run_name_bytes(c);
     run_numeric_table(c);
     run_family(c);
     run_outside_family(c);
